@@ -7,6 +7,7 @@ import DateutilVerif.Base.Wire
 import DateutilVerif.Model.RRuleSet
 import DateutilVerif.Spec.RRuleSet
 import DateutilVerif.Ops.QueryOps
+import DateutilVerif.Generated.RSetMerge
 
 namespace Ops.RSetOps
 open Wire RSet Ops.QueryOps
@@ -37,6 +38,13 @@ def handle (op : String) (args : List String) : Option String :=
   | "rset.iter", [inc, exc] => do
       let inc ← parseStreams? inc; let exc ← parseStreams? exc
       some ("ok " ++ showIntList (iter selFirstMin inc exc))
+  | "rset.titer", [inc, exc] => do
+      -- `rruleset._iter` / `_genitem` AS TRANSLATED from the source (Generated/RSetMerge.lean); the first stream of each role is the date list
+      let inc ← parseStreams? inc; let exc ← parseStreams? exc
+      let m : Members := { rdates := inc.headD [], rrules := inc.tail, exdates := exc.headD [], exrules := exc.tail }
+      match MergePy.runIter selFirstMin Gen.genitemInit Gen.genitemNext Gen.genitemCmp Gen.rsetIterProgram m with
+      | some (l, _) => some ("ok " ++ showIntList l)
+      | none => some "untranslated"
   | "rset.spec", [inc, exc] => do
       let inc ← parseStreams? inc; let exc ← parseStreams? exc
       some ("ok " ++ showIntList (setSpec inc exc))
